@@ -316,7 +316,16 @@ def run(ctx, rep):
                 for m in ast.walk(t):
                     if isinstance(m, ast.Attribute) and isinstance(m.value, ast.Name) and m.value.id == obj:
                         reads.add(m.attr)
-        if bad is not None:
+        if bad is None:
+            # the two kind flags themselves must be alternatives: `parallel and subcircuit` keeps almost nothing whole
+            for y in whole:
+                for t in fl.control_tests(y):
+                    for m in ast.walk(t):
+                        if isinstance(m, ast.BoolOp) and isinstance(m.op, ast.And) and sum(1 for v in m.values if is_kind(v)) >= 2:
+                            bad = (t, m)
+        if bad is not None and isinstance(bad[1], ast.BoolOp):
+            rep.violation("C19.5", cons, f"`{ast.unparse(bad[1])}`: a block is kept whole only if it is parallel AND a subcircuit; every ordinary parallel block and every subcircuit block is dissolved into its statements", f"{bh.path}:{bad[0].lineno}")
+        elif bad is not None:
             rep.violation("C19.5", cons, f"the block is kept whole only if `{ast.unparse(bad[1])}` also holds (`{ast.unparse(bad[0])}`): a subcircuit or parallel block for which it fails is dissolved into its statements and its flag and repetition count are lost", f"{bh.path}:{bad[0].lineno}")
         elif not {"parallel", "subcircuit"} <= reads:
             rep.violation("C19.5", cons, f"the path that dissolves a block into its statements is not guarded by both kind flags (reads {sorted(reads)}): a {'subcircuit' if 'subcircuit' not in reads else 'parallel'} block is flattened", bh.loc())
